@@ -191,6 +191,11 @@ func (c *ChordStorage) List(ctx context.Context, prefix string, recursive bool) 
 			if key.GetType() != protocol.KeyComposite_SIMPLE {
 				continue
 			}
+			if !strings.HasPrefix(string(key.GetKey()), prefix) {
+				// ListKeys matches by string prefix: a sibling that merely starts with the
+				// same characters (example.com.au vs example.com) is not a child
+				continue
+			}
 			sub := strings.TrimPrefix(string(key.GetKey()), prefix)
 			before, _, ok := strings.Cut(sub, "/")
 
